@@ -337,6 +337,11 @@ def Key.typeName : Key → Str
 
 inductive LeafKind where
   | str | int | float | bool | none
+  /-- an instance of an int / float subclass (enum.IntEnum member, a quantity type, …): still a
+  "simple" value for the view; class name and `camel_to_snake` of it are inputs -/
+  | num (className cssName : Str)
+  /-- any other non-container object: rendered through `utils.format` like a leaf, but not "simple" -/
+  | other (className cssName : Str)
   deriving DecidableEq, Repr
 
 inductive NodeKind where
@@ -367,6 +372,12 @@ def Tree.tip : Tree → Str
   | .node _ _ _ t _ => t
 
 def Tree.isLeaf : Tree → Bool
+  | .leaf .. => true
+  | .node .. => false
+
+/-- `isinstance(value, (bool, int, float, str, type(None)))`. -/
+def Tree.isSimple : Tree → Bool
+  | .leaf _ _ (.other ..) .. => false
   | .leaf .. => true
   | .node .. => false
 
@@ -413,6 +424,7 @@ structure Opts extends Ctx where
 def LeafKind.cssName : LeafKind → Str
   | .str => c!"str" | .int => c!"int" | .float => c!"float"
   | .bool => c!"bool" | .none => c!"none-type"
+  | .num _ css => css | .other _ css => css
 
 def dots : Str := c!"(...)"
 
@@ -420,6 +432,7 @@ def dots : Str := c!"(...)"
 def LeafKind.title : LeafKind → Str
   | .str => c!"str" | .int => c!"int" | .float => c!"float"
   | .bool => c!"bool" | .none => c!"NoneType" ++ dots
+  | .num n _ => n | .other n _ => n ++ dots
 
 def NodeKind.cssName : NodeKind → Str
   | .dict | .symDict => c!"dict"
@@ -456,6 +469,7 @@ def needsSummary (c : Ctx) (named : Bool) (t : Tree) : Bool :=
     if !c.enableSummaryForStr && t.isStr then false
     else match t with
       | .leaf _ _ .str _ raw _ => named || decide ((raw.length : Int) > c.maxSummaryLenForStr)
+      | .leaf _ _ (.other ..) .. => true
       | .leaf .. => named
       | .node .. => true
 
@@ -474,7 +488,7 @@ def shouldCollapse (c : Ctx) (named : Bool) (path : List Key) (t : Tree) : Bool 
   | some l =>
     if l > 0 then false
     else if inUncollapse path c.uncollapse then false
-    else if named && t.isLeaf then false
+    else if named && t.isSimple then false
     else true
 
 /-- `styles=dict(color=c[0], background_color=c[1])` after `get_color`. -/
